@@ -575,13 +575,20 @@ impl RSub {
     }
 }
 
+/// Sub-grid names (8-byte, blank padded fields; the reader trims): every length 1..=8, upper and lower case,
+/// digits, inner blanks; per file one of three styles: 0 = independent random names, 1 = all names of full
+/// width sharing their first seven characters (they differ in the 8th only), 2 = all names of full width.
+/// The last character is the sub-grid's index digit: names are unique, never "NONE", never end in a blank.
 fn nt_name(seed: u64, idx: usize) -> String {
-    const CH: &[u8] = b"ABCDEFGHIJKLMNOPQRSTUVWXYZ0123456789_";
-    let h = mix(seed ^ mix(idx as u64 + 11));
-    let len = (h % 7) as usize;
+    const CH: &[u8] = b"ABCDEFGHIJKLMNOPQRSTUVWXYZabcdefghijklmnopqrstuvwxyz0123456789_-.";
+    let style = mix(seed ^ 0x5ca1ab1e) % 3;
+    let h = if style == 1 { mix(seed ^ 0xfeed) } else { mix(seed ^ mix(idx as u64 + 11)) };
+    let len = if style == 0 { (mix(h ^ 7) % 8) as usize } else { 7 }; // characters in front of the index digit
     let mut s = String::new();
     for k in 0..len {
-        s.push(CH[(mix(h + k as u64) % CH.len() as u64) as usize] as char);
+        let c = CH[(mix(h.wrapping_add(k as u64)) % CH.len() as u64) as usize] as char;
+        // an inner blank now and then (never first: the field is trimmed)
+        s.push(if k > 0 && mix(h ^ (k as u64 * 977)) % 9 == 0 { ' ' } else { c });
     }
     s.push((b'0' + idx as u8) as char);
     s
@@ -1395,6 +1402,12 @@ fn check_ntv2(c: &NtCase, rec: &mut Rec) -> CaseResult {
     rec.class(&format!("subgrids={nsub}"));
     rec.class(&format!("depth={}", rsubs.iter().map(|s| s.depth).max().unwrap_or(0)));
     rec.class(if c.f.big_endian { "big-endian" } else { "little-endian" });
+    for sub in &rsubs {
+        rec.class(&format!("name-length={}{}", sub.name.len(), if sub.name.contains(' ') { ",inner-blank" } else { "" }));
+        if sub.parent.is_some() {
+            rec.class(&format!("parent-reference-length={}", sub.parent_name.len()));
+        }
+    }
     rec.class(["values-independent", "values-consistent-borders", "values-global-affine"][(c.f.vmode % 3) as usize]);
     let tree = rsubs
         .iter()
@@ -2331,7 +2344,7 @@ fn main() {
     let n = run.scale(12_000, 300_000);
     run.section(
         "ntv2-at",
-        "random NTv2 files (1-2 roots, up to 5 nested children to depth 3, refinement 2..5, both byte orders, random file order, with/without END record; values independent / consistent on borders / one affine field); 12..32 queries positioned relative to a random sub-grid (plus points on / 1e-7..1e-5 cell inside the north and east limits and the NE corner of root grids) x margins {0, 0.5}; Ntv2Grid::at/contains against deepest-sub-grid reference; non-trivial = definite owner that is a child, or a root cell with distinct corners",
+        "random NTv2 files (1-2 roots, up to 5 nested children to depth 3, sub-grid names of every length 1..8 incl. full-width names differing only in the 8th character, mixed case and inner blanks, refinement 2..5, both byte orders, random file order, with/without END record; values independent / consistent on borders / one affine field); 12..32 queries positioned relative to a random sub-grid (plus points on / 1e-7..1e-5 cell inside the north and east limits and the NE corner of root grids) x margins {0, 0.5}; Ntv2Grid::at/contains against deepest-sub-grid reference; non-trivial = definite owner that is a child, or a root cell with distinct corners",
         n,
         nt_case,
         check_ntv2,
